@@ -347,7 +347,7 @@ def run_check(prop, tier, seed, replay):
         'repo': repo_fingerprint(),
         'build': {k: st[k] for k in ('harness', 'extract', 'lean', 'harness_s', 'harness_race_s', 'lean_s') if k in st},
         'known_findings_hit': [k['id'] for (k, _) in known_hits],
-        'explanation': P.get('explanation', ''),
+        'explanation': P.get('explanation') or P.get('claim', P.get('claim_draft', '')),
     }
     if level == 'proof' and not thms:
         cov['obligations'] = 1; cov['discharged'] = 0
